@@ -32,6 +32,18 @@ def lean_tree(t, indent=2):
     return f'{pad}if {a.t[1]} = {b.t[1]} then\n{lean_tree(t[2], indent + 2)}\n{pad}else\n{lean_tree(t[3], indent + 2)}'
 
 
+def merge(t):
+    """branches with identical outcomes merged"""
+    if t[0] == 'leaf': return t
+    l, r = merge(t[2]), merge(t[3])
+    if tree_key(l) == tree_key(r): return l
+    return ('ite', t[1], l, r)
+
+
+def tree_key(t):
+    return t[1] if t[0] == 'leaf' else f'ite({t[1].t[1].t[1]}={t[1].t[2].t[1]},{tree_key(t[2])},{tree_key(t[3])})'
+
+
 def generate():
     import pyhf.workspace as wsmod
     out = [HEADER]
@@ -46,6 +58,23 @@ def generate():
         tree = sx.paths(run)
         out.append(f'/-- `_join_items({jname!r}, [L0, L1], [R0, R1])` -/')
         out.append(f'def join_{jlean} (nl0 nl1 nr0 nr1 : String) (bl0 bl1 br0 br1 : B) : List (String × B) :=\n{lean_tree(tree)}\n')
+    # ---- the checked joins: `_join_channels` (no channel merging) and `_join_observations` — join, then the post-check of the mode
+    import pyhf
+    for fname, tag in (('_join_channels', 'chan'), ('_join_observations', 'obs')):
+        fn = getattr(wsmod, fname)
+        dgc = hashlib.sha256(inspect.getsource(fn).encode()).hexdigest()[:16]
+        for jname, jlean in JOINS:
+            def run():
+                L = [{'name': Atom('name', f'nl{i}'), 'body': Atom('body', f'bl{i}')} for i in range(2)]
+                R = [{'name': Atom('name', f'nr{i}'), 'body': Atom('body', f'br{i}')} for i in range(2)]
+                try:
+                    res = fn(jname, L, R)
+                except pyhf.exceptions.InvalidWorkspaceOperation:
+                    return 'none'
+                return 'some [' + ', '.join(f'({it["name"].name}, {it["body"].name})' for it in res) + ']'
+            tree = sx.paths(run)
+            out.append(f'/-- `{fname}({jname!r}, [L0, L1], [R0, R1])` (source sha256 {dgc}…): `none` = `InvalidWorkspaceOperation` -/')
+            out.append(f'def join_{tag}_{jlean} (nl0 nl1 nr0 nr1 : String) (bl0 bl1 br0 br1 : B) : Option (List (String × B)) :=\n{lean_tree(merge(tree))}\n')
     out.append('end\nend Pyhf.Gen\n')
     return '\n'.join(out)
 
